@@ -1040,19 +1040,19 @@ class Gen:
         sub = ctx.copy()          # labels list stays shared on purpose: readable after the group
         sub.depth = level + 1
         body = []
-        n = self.wpick([(3, 0), (5, 1), (0.7, 2)])
+        divert = self.pick(ctx.targets) if (can_divert and ctx.targets and self.p(0.4)) else None
+        if divert and not c.tags and self.p(0.3):
+            c.divert, divert = divert, None      # "* text -> target", no body
+            n = 0
+        else:
+            n = self.wpick([(3, 0), (5, 1), (0.7, 2)])
         for _ in range(n):
             body += self.simple_stmt(sub)
-        if level == 1 and self.p(0.15):
+        if level == 1 and not c.divert and self.p(0.15):
             body.append(self.choice_group(sub, 2, can_divert=False))
             body += [self.text(sub)]
-        if can_divert and ctx.targets and self.p(0.4):
-            t = self.pick(ctx.targets)
-            if not c.tags and self.p(0.3):
-                c.divert = t      # "* text -> target"
-                body = []
-            else:
-                body.append(Divert(t))
+        if divert:
+            body.append(Divert(divert))
         if c.label:
             ctx.labels.append(c.label)
             if level == 1 and ctx.kind == "node":
